@@ -583,6 +583,7 @@ pub fn def() -> PropDef {
                 cases_quick: 60_000,
                 cases_thorough: 1_000_000,
                 max_shrink_iters: 3000,
+                limit_factor: 1,
                 strategy: || case_strategy(3000),
                 check: run_case,
             }),
@@ -592,6 +593,7 @@ pub fn def() -> PropDef {
                 cases_quick: 300_000,
                 cases_thorough: 4_000_000,
                 max_shrink_iters: 3000,
+                limit_factor: 1,
                 strategy: image_case,
                 check: run_image,
             }),
